@@ -7,7 +7,7 @@
 //           (Sz Sn Sp: the same boundary arguments for the shared timed forms)
 //           S lock_shared | Sc const lock() | St try_lock_shared | Sf try_lock_shared_for | Su try_lock_shared_until
 //   variant (handle life cycle): '' use+destroy | k unlock()+destroy | m move-construct | a move-assign both ways
-//   whole : ld load | st=v store | as=v operator= | cv operator T | md modify | rd read | xc=v exchange | ce=e/d compare_exchange
+//   whole : ld load | st=v store | as=v operator= | cv operator T | md modify | rd read | xc=v exchange (rvalue) | xl=v exchange (lvalue argument) | ce=e/d compare_exchange
 //   !k    : the k-th user-code invocation inside the op throws (fault injection)
 // markers: call/ret/exc <op>; acq <X|S> <b|t|f|u>; got <slot> <0|1>; hd/hu/hmc/hma <slots>; he [<bool>];
 //          hfree = by the handle semantics of C01/C08 no handle of this thread owns the lock at this point
@@ -327,6 +327,15 @@ void do_op(W& w, const std::string& text)
                 result = std::to_string(r.a);
                 verif::emit("rrv " + std::to_string(r.rev));
                 done = true;
+            } else if (o.name == "xl") {
+                // exchange called with an LVALUE: the by-value parameter is copy-constructed by the call itself, before
+                // any lock operation (fault point 1); a failed copy must leave the register untouched
+                Pay nv(o.v1);
+                nv.rev = next_rev();
+                Pay r = w.exchange(nv);
+                result = std::to_string(r.a);
+                verif::emit("rrv " + std::to_string(r.rev));
+                done = true;
             } else if (o.name == "ce") {
                 Pay expected(o.v1);
                 Pay desired(o.v2);
@@ -348,6 +357,11 @@ void do_op(W& w, const std::string& text)
     catch (const vpay::Injected&) {
         vpay::arm(0);
         verif::emit("exc " + text);
+    }
+    // whatever the operation did (returned or threw): when nobody holds the lock the wrapped object must not be a
+    // moved-from husk (harness peek: one logical thread runs at a time; the flag is not part of the traced value)
+    if (!vpay::unprotected() && w.m_mutex.free_x() && w.m_obj.husk) {
+        verif::fail("after " + text + " the wrapped object is left in a moved-from state although nobody holds the lock");
     }
 }
 
@@ -507,12 +521,14 @@ std::vector<std::string> ops_for(const std::string& wk, const std::string& mk, b
         for (int k = 0; k < 2; ++k) {
             ops.push_back("xc=3");
             ops.push_back("xc=4");
+            ops.push_back("xl=3");
             ops.push_back("ce=0/9");
             ops.push_back("ce=3/4");
             ops.push_back("ce=5/3");
         }
         if (faults) {
             ops.push_back("xc=2!1");
+            ops.push_back("xl=2!1");
             ops.push_back("xc=2!2");
             ops.push_back("ce=0/1!1");
             ops.push_back("ce=0/1!2");
